@@ -15,10 +15,20 @@
   Lagrange's identity; Lemmas/JoinsDisplayScale.lean), and the edges of `Line::extents` start
   within `16 w + 37` of their segment (Lemmas/JoinsExtentsBound.lean).
 
-  -- [V] the remaining guards of the picture-level theorems (`BoxGuard`, `RowsGuard`, `TriBoxGuard`, `TriRowsGuard` of Props/C07/Joins.lean: the first segment's box corners are i32 values other than the fold sentinels, `rows()` of the moved box does not saturate) hold for all display-scale inputs: carried by correspondence + oracle only (the corner bound they need, 2^27 + 4097, is `used_intersection_point_near_edge`; the segment / box plumbing is not done)
+  The box guards of the picture-level theorems (`BoxGuard`, `RowsGuard`, `TriBoxGuard`,
+  `TriRowsGuard`, hence `TriGuards`) hold on the same domain: every corner of a `LineJoin` is an end
+  point of an edge line of `Line::extents` or a USED rounded intersection point, so it lies within
+  2^27 + 4096 of the origin (`join_corners_near_display_scale`); the first segment box then absorbs
+  the `i32::MAX / MIN` sentinels of the fold before and after the move and `rows()` of the moved box
+  does not saturate (Lemmas/JoinsBoxDisplayScale.lean). Hence the picture theorems of
+  Props/C07/Joins.lean have guard-free display-scale corollaries (`*_display_scale` below): draw
+  calls, `pixels()` and bounding box of a stroked polyline with moved vertices and of a moved styled
+  triangle.
+
+  -- [V] stroked polylines / styled triangles outside the display-scale domain (a vertex beyond +-1024, a stroke wider than 128, a move beyond +-2^30): the guards `PolyNoSat` / `BoxGuard` / `RowsGuard` / `TriGuards` of Props/C07/Joins.lean are decidable per instance but not proved in general there (they are false for coordinates near the `i32` limits): carried by correspondence + oracle only
 -/
-import EG.Lemmas.JoinsExtentsBound
-import EG.Lemmas.JoinsPolyMove
+import EG.Lemmas.JoinsBoxDisplayScale
+import EG.Props.C07.Joins
 namespace EG.C07.Joins
 open EG EG.Joins
 
@@ -104,5 +114,86 @@ theorem triangle_is_collapsed_translate_display_scale {t : Tri} (h1 : VDS t.v1) 
     (t.translate d).isCollapsed w off = t.isCollapsed w off :=
   isCollapsed_translate t w off d (triNoSat_display_scale h1 h2 h3 hw off hd)
 example : (128 : Nat) ≤ 128 ∧ MoveDS ⟨-7, -9⟩ := by decide
+
+/-! ### the box guards, and the picture theorems without guards -/
+
+/-- Every corner point of a join of display-scale vertices lies within 2^27 + 4096 of the origin
+(`PtNear`): it is an end point of an edge line or a used intersection point. -/
+theorem join_corners_near_display_scale {start mid stop : Pt} (h1 : VDS start) (h2 : VDS mid)
+    (h3 : VDS stop) {w : Nat} (hw : w ≤ 128) {off : Thick.StrokeOffset} {j : LineJoin}
+    (h : LineJoin.fromPoints start mid stop w off = some j) :
+    (PtNear j.firstEdgeEnd.left ∧ PtNear j.firstEdgeEnd.right) ∧
+      (PtNear j.secondEdgeStart.left ∧ PtNear j.secondEdgeStart.right) :=
+  fromPoints_near h1 h2 h3 hw h
+example : VDS ⟨0, 0⟩ ∧ VDS ⟨-6, -6⟩ ∧ VDS ⟨-5, 3⟩ ∧ (4 : Nat) ≤ 128 ∧
+    (LineJoin.fromPoints ⟨0, 0⟩ ⟨-6, -6⟩ ⟨-5, 3⟩ 4 .none).isSome = true := by decide
+
+/-- **`BoxGuard` holds at display scale.** -/
+theorem box_guard_display_scale {vs : List Pt} {w : Nat} {d : Pt} (hn : 2 ≤ vs.length)
+    (hv : ∀ v ∈ vs, VDS v) (hw : w ≤ 128) (hd : MoveDS d) : BoxGuard vs w d :=
+  boxGuard_display_scale hn hv hw hd
+
+/-- **`RowsGuard` holds at display scale** (non-zero width, at least two vertices). -/
+theorem rows_guard_display_scale {vs : List Pt} {w : Nat} {d : Pt} (hw0 : 0 < w) (hn : 2 ≤ vs.length)
+    (hv : ∀ v ∈ vs, VDS v) (hw : w ≤ 128) (hd : MoveDS d) : RowsGuard vs w d :=
+  rowsGuard_display_scale hw0 hn hv hw hd
+example : 2 ≤ ([⟨0, 0⟩, ⟨-6, -6⟩, ⟨-5, 3⟩, ⟨1024, -1024⟩] : List Pt).length ∧
+    (∀ v ∈ ([⟨0, 0⟩, ⟨-6, -6⟩, ⟨-5, 3⟩, ⟨1024, -1024⟩] : List Pt), VDS v) ∧ (0 : Nat) < 128 ∧
+    (128 : Nat) ≤ 128 ∧ MoveDS ⟨-1073741824, 1073741824⟩ := by decide
+
+/-- The bounding box of a display-scale stroked polyline with moved vertices is the moved box —
+no guard. -/
+theorem polyline_moved_vertices_box_display_scale (vs : List Pt) (w : Nat) (d : Pt) (hw0 : 0 < w)
+    (hw : w ≤ 128) (hn : 2 ≤ vs.length) (hv : ∀ v ∈ vs, VDS v) (hd : MoveDS d) :
+    styledBoundingBox ⟨Pt.zero, vs.map (· + d)⟩ w = (styledBoundingBox ⟨Pt.zero, vs⟩ w).map (·.translate d) :=
+  polyline_moved_vertices_box_partial vs w d hw0 hn (polyNoSat_display_scale hw hd vs hv)
+    (boxGuard_display_scale hn hv hw hd)
+
+/-- **`draw` of a display-scale stroked polyline (2 <= width <= 128) with moved vertices issues the
+moved `fill_solid` rectangles, in the same order — no guard.** -/
+theorem polyline_moved_vertices_draw_display_scale (vs : List Pt) (w : Nat) (d : Pt) (hw2 : 2 ≤ w)
+    (hw : w ≤ 128) (hn : 2 ≤ vs.length) (hv : ∀ v ∈ vs, VDS v) (hd : MoveDS d) :
+    drawStyled ⟨Pt.zero, vs.map (· + d)⟩ w = (drawStyled ⟨Pt.zero, vs⟩ w).map (PolyDraw.translate · d) :=
+  polyline_moved_vertices_draw_partial vs w d hw2 hn (polyNoSat_display_scale hw hd vs hv)
+    (boxGuard_display_scale hn hv hw hd) (rowsGuard_display_scale (by omega) hn hv hw hd)
+
+/-- **`pixels()` of a display-scale stroked polyline (2 <= width <= 128) with moved vertices is the
+moved pixel sequence — no guard.** -/
+theorem polyline_moved_vertices_pixels_display_scale (vs : List Pt) (w : Nat) (d : Pt) (hw2 : 2 ≤ w)
+    (hw : w ≤ 128) (hn : 2 ≤ vs.length) (hv : ∀ v ∈ vs, VDS v) (hd : MoveDS d) :
+    pixels ⟨Pt.zero, vs.map (· + d)⟩ w = (pixels ⟨Pt.zero, vs⟩ w).map (·.map (· + d)) :=
+  polyline_moved_vertices_pixels_partial vs w d hw2 hn (polyNoSat_display_scale hw hd vs hv)
+    (boxGuard_display_scale hn hv hw hd) (rowsGuard_display_scale (by omega) hn hv hw hd)
+example : (2 : Nat) ≤ 4 ∧ (4 : Nat) ≤ 128 ∧ 2 ≤ ([⟨0, 0⟩, ⟨-6, -6⟩, ⟨-5, 3⟩] : List Pt).length ∧
+    (∀ v ∈ ([⟨0, 0⟩, ⟨-6, -6⟩, ⟨-5, 3⟩] : List Pt), VDS v) ∧ MoveDS ⟨-3, 4⟩ := by decide
+
+/-- **`TriGuards` (all guards of the triangle picture theorems) hold at display scale.** -/
+theorem tri_guards_display_scale {t : Tri} (h1 : VDS t.v1) (h2 : VDS t.v2) (h3 : VDS t.v3)
+    {style : TriStyle} (hw : style.strokeWidth ≤ 128) {d : Pt} (hd : MoveDS d) : TriGuards t style d :=
+  triGuards_display_scale h1 h2 h3 hw hd
+
+/-- The styled bounding box of a moved display-scale triangle is the moved box — no guard. -/
+theorem triangle_box_translate_display_scale (t : Tri) (style : TriStyle) (d : Pt) (h1 : VDS t.v1)
+    (h2 : VDS t.v2) (h3 : VDS t.v3) (hw : style.strokeWidth ≤ 128) (hd : MoveDS d) :
+    triStyledBoundingBox (t.translate d) style = (triStyledBoundingBox t style).map (·.translate d) :=
+  triangle_box_translate_partial t style d (triGuards_display_scale h1 h2 h3 hw hd).ns
+    (triGuards_display_scale h1 h2 h3 hw hd).box
+
+/-- **`draw` of a moved display-scale styled triangle (any alignment and fill, stroke width up to
+128) issues the moved `fill_solid` calls, same order, same colours — no guard.** -/
+theorem triangle_draw_translate_display_scale (t : Tri) (style : TriStyle) (d : Pt) (h1 : VDS t.v1)
+    (h2 : VDS t.v2) (h3 : VDS t.v3) (hw : style.strokeWidth ≤ 128) (hd : MoveDS d) :
+    triDraw (t.translate d) style = (triDraw t style).map (·.map (shiftCall · d)) :=
+  triangle_draw_translate_partial t style d (triGuards_display_scale h1 h2 h3 hw hd)
+
+/-- **`pixels()` of a moved display-scale styled triangle is the moved pixel sequence, with the same
+colours — no guard.** -/
+theorem triangle_pixels_translate_display_scale (t : Tri) (style : TriStyle) (d : Pt) (h1 : VDS t.v1)
+    (h2 : VDS t.v2) (h3 : VDS t.v3) (hw : style.strokeWidth ≤ 128) (hd : MoveDS d) :
+    triPixels (t.translate d) style = (triPixels t style).map (·.map (shiftPx · d)) :=
+  triangle_pixels_translate_partial t style d (triGuards_display_scale h1 h2 h3 hw hd)
+example : VDS (⟨⟨-5, -4⟩, ⟨-5, -1⟩, ⟨-1, -4⟩⟩ : Tri).v1 ∧ VDS (⟨⟨-5, -4⟩, ⟨-5, -1⟩, ⟨-1, -4⟩⟩ : Tri).v2 ∧
+    VDS (⟨⟨-5, -4⟩, ⟨-5, -1⟩, ⟨-1, -4⟩⟩ : Tri).v3 ∧
+    (⟨some 2, some 1, 3, .center⟩ : TriStyle).strokeWidth ≤ 128 ∧ MoveDS ⟨-7, -9⟩ := by decide
 
 end EG.C07.Joins
